@@ -88,8 +88,18 @@ impl VxChannelsGuard {
     #[verifier::external_body]
     pub fn get(&self, k: &ChannelId) -> (r: Option<&VxSlot>)
         ensures r.is_some() == self@.contains_key(*k), r.is_some() ==> *(r->Some_0) == self@[*k] { unimplemented!() }
+    // representation invariant of the channel map, as a precondition of its only writer (C05: "a channel becomes usable
+    // only with ..."): a READY channel enters the map only with a setup that validate_setup_channel accepted in this run
+    // or that comes from the store (written by an earlier run under the same rule)
     #[verifier::external_body]
-    pub fn insert(&mut self, k: ChannelId, v: VxSlot) -> (r: Option<VxSlot>) ensures final(self)@ == old(self)@.insert(k, v) { unimplemented!() }
+    pub fn insert(&mut self, k: ChannelId, v: VxSlot) -> (r: Option<VxSlot>)
+        requires slot_admissible(v@),                                                               //[C05.channel-map.ready-only-with-validated-setup]
+        ensures final(self)@ == old(self)@.insert(k, v)
+    { unimplemented!() }
+}
+pub uninterp spec fn setup_from_store(s: ChannelSetup) -> bool;
+pub open spec fn slot_admissible(s: ChannelSlot) -> bool {
+    s is Ready ==> setup_from_store(s->Ready_0.setup) || exists|p: DerivationPath| setup_validated(s->Ready_0.setup, p)
 }
 
 // LDK InMemorySigner: the six secrets it is built from are "the channel's keys" (basepoints, funding key and the
@@ -197,7 +207,10 @@ impl NodeServices {
 impl VxPersist {
     // Persist::get_node_channels: (initial channel id, entry) pairs as stored
     #[verifier::external_body]
-    pub fn get_node_channels(&self, node_id: &PublicKey) -> Result<Vec<(ChannelId, ChannelEntry)>, ()> { unimplemented!() }
+    pub fn get_node_channels(&self, node_id: &PublicKey) -> (r: Result<Vec<(ChannelId, ChannelEntry)>, ()>)
+        ensures r.is_ok() ==> forall|i: int| 0 <= i < r->Ok_0@.len() && (#[trigger] r->Ok_0@[i]).1.channel_setup.is_some() ==>
+            setup_from_store(r->Ok_0@[i].1.channel_setup->Some_0)
+    { unimplemented!() }
 }
 #[verifier::external_body]
 pub fn vx_listeners(e: VxListenerEntries) -> VxListeners { unimplemented!() }
@@ -280,8 +293,12 @@ impl VxNode {
         // C13: the restored tracker checks attestations against the oracles configured now
         r.tracker_oracles() == services.oracles_spec(),                                                //[C13.restore.oracles-from-config]
 //@sub /node_config\.allow_deep_reorgs/ => node_config.vx_allow_deep_reorgs()
-//@sub /(?s)for \(channel_id0, channel_entry\) in\s*persister\.get_node_channels\(&node_id\)\.vx_expect\(\)\s*\{/ => let vx_entries = persister.get_node_channels(&node_id).vx_expect(); for vx_entry in it: vx_entries { let (channel_id0, channel_entry) = vx_entry; let ghost vx_id0 = channel_id0; let ghost vx_e = channel_entry;
+//@sub /(?s)for \(channel_id0, channel_entry\) in\s*persister\.get_node_channels\(&node_id\)\.vx_expect\(\)\s*\{/ => let vx_entries = persister.get_node_channels(&node_id).vx_expect(); for vx_entry in vx_entries { let (channel_id0, channel_entry) = vx_entry; let ghost vx_id0 = channel_id0; let ghost vx_e = channel_entry;
 //@sub /monitor: monitor_base\.clone\(\),/ => monitor: monitor_base.clone(), persisted: Ghost(vx_e.enforcement_state),
+//@loop 1 iter=it
+            invariant
+                forall|i: int| 0 <= i < vx_entries@.len() && (#[trigger] vx_entries@[i]).1.channel_setup.is_some() ==>
+                    setup_from_store(vx_entries@[i].1.channel_setup->Some_0),
 //@proof blockend /let stub = ChannelStub \{/
                     proof {
                         // C18/C15: the stub registered again is the one created under id0, with the keys derived from id0
